@@ -249,6 +249,15 @@ func parseNewArgs(ts []string) newArgs {
 
 // construct calls the library constructor and sets the transaction id explicitly
 func construct(a newArgs) (packet.Request, error) {
+	if n := len(a.data); n > 0 && n < 4096 {
+		// the caller's payload is the front of a larger scratch buffer (spare capacity behind it)
+		d := make([]byte, n, n+48)
+		copy(d, a.data)
+		for i := n; i < cap(d); i++ {
+			d[:cap(d)][i] = 0xEE
+		}
+		a.data = d
+	}
 	tcp := a.framing == "t"
 	switch a.fc {
 	case 1:
@@ -513,6 +522,10 @@ func execRt(ts []string) string {
 	}
 	bs := r.Bytes()
 	parts := []string{"ok bytes=" + hx(bs)}
+	if again := r.Bytes(); hx(again) != hx(bs) {
+		// encoding a request does not change it: a second encoding (a retry) is the same frame
+		parts[0] = "ENCODING-NOT-STABLE second=" + hx(again) + " " + parts[0]
+	}
 	for _, e := range rtEntries(a.framing, a.fc) {
 		d := bs
 		name := e[0]
